@@ -106,7 +106,12 @@ def make_scheduler(kw):
         args["cost_attr"] = COST
     if "num_threshold_candidates" in kw:
         args["rung_system_kwargs"] = {"num_threshold_candidates": kw["num_threshold_candidates"]}
-    args["searcher"] = StubSearcher(cs, METRIC, kw["mode"])
+    if kw.get("searcher"):
+        # real model-based searcher; no model is ever fitted (num_init_random is huge): bookkeeping only
+        args["searcher"] = kw["searcher"]
+        args["search_options"] = {"num_init_random": 10 ** 6, "debug_log": False}
+    else:
+        args["searcher"] = StubSearcher(cs, METRIC, kw["mode"])
     sch = HyperbandScheduler(cs, **args)
     sch._initialize_searcher()
     rs = RecordingRandomState(sch.terminator.random_state)
@@ -140,8 +145,15 @@ def snapshot(sch):
     cost_offset = [[int(k), frac_str(v)] for k, v in sch._cost_offset.items()]
     task_info = [[int(k), int(v)] for k, v in t._task_info.items()]
     active = [[int(k), v.trial_decision, int(v.bracket)] for k, v in sch._active_trials.items()]
-    return {"rungs": rungs, "running": running, "task_info": task_info, "active": active,
-            "thresholds": thresholds, "pasha": pasha, "cost_offset": cost_offset}
+    out = {"rungs": rungs, "running": running, "task_info": task_info, "active": active,
+           "thresholds": thresholds, "pasha": pasha, "cost_offset": cost_offset}
+    if hasattr(sch.searcher, "state_transformer"):
+        st = sch.searcher.state_transformer.state
+        out["pending"] = [[int(p.trial_id), int(p.resource)] for p in st.pending_evaluations]
+        out["observed"] = [[int(e.trial_id), [[int(k), frac_str(v)] for k, v in e.metrics.get("target", {}).items()]]
+                           for e in st.trials_evaluations]
+        out["failed"] = [int(x) for x in st.failed_trials]
+    return out
 
 
 def model_view(out):
@@ -175,6 +187,10 @@ def metric_value(rng_seed, tid, r, style):
         return rr.randrange(0, 4) / 4.0
     if style == "const":
         return 0.5
+    if style == "grid":
+        # multiples of 1/1024 in [0, 1): `1 - v` is exact in floating point
+        lat = random.Random(rng_seed * 31 + tid).randrange(0, 48)
+        return (lat * 16 + rr.randrange(0, 256)) / 1024.0
     if style == "noisy":
         # rankings change from level to level (drives PASHA's cap growth)
         return rr.randrange(0, 256) / 256.0
@@ -213,6 +229,12 @@ def run_scenario(spec):
     style = spec.get("style", "general")
     sign = -1.0 if spec.get("negate") else 1.0
     searcher = sch.searcher
+    real_searcher = ctor.get("searcher")
+    if real_searcher is not None:
+        class _NoCalls:
+            def take(self):
+                return None
+        searcher = _NoCalls()
     n_events = 0
     # training scripts reporting only every `stride`-th level (stopping types only: a pause/resume
     # trial must report its milestone exactly, the code asserts it)
@@ -242,7 +264,9 @@ def run_scenario(spec):
             b = int(sch._active_trials[str(tid)].bracket)
             rsys = sch.terminator._rung_systems[b if ctor.get("rung_system_per_bracket") else 0]
             inp["eps"] = frac_str(float(rsys.epsilon))
-        out = {"decision": d, "calls": searcher.take()}
+        out = {"decision": d}
+        if real_searcher is None:
+            out["calls"] = searcher.take()
         out.update(snapshot(sch))
         lines.append((inp, out))
         events.append({"ev": "result", "trial": tid, "resource": r, "metric": v, "decision": d,
